@@ -6,6 +6,15 @@ import (
 	"golang.org/x/exp/rand"
 )
 
+// ctxRandIntn 返回 [0, n) 内的随机整数，使用当前上下文的随机源(为nil时使用全局随机源)
+func ctxRandIntn(ctx *Context, n int) int {
+	var src *rand.PCGSource
+	if ctx != nil {
+		src = ctx.RandSrc
+	}
+	return int(Roll(src, IntType(n), 0)) - 1
+}
+
 func funcComputedCompute(ctx *Context, this *VMValue, params []*VMValue) *VMValue {
 	return this.ComputedExecute(ctx, nil)
 }
@@ -69,7 +78,7 @@ func funcArrayShuttle(ctx *Context, this *VMValue, params []*VMValue) *VMValue {
 	arr, _ := this.ReadArray()
 	lst := arr.List
 	for i := len(lst) - 1; i > 0; i-- { // Fisher–Yates shuffle
-		j := rand.Intn(i + 1)
+		j := ctxRandIntn(ctx, i+1)
 		lst[i], lst[j] = lst[j], lst[i]
 	}
 	return this
@@ -81,7 +90,7 @@ func funcArrayRand(ctx *Context, this *VMValue, params []*VMValue) *VMValue {
 		ctx.Error = errors.New("(arr.rand)数组为空，无法随机取值")
 		return nil
 	}
-	return arr.List[rand.Intn(len(arr.List))]
+	return arr.List[ctxRandIntn(ctx, len(arr.List))]
 }
 
 func funcArrayRandSize(ctx *Context, this *VMValue, params []*VMValue) *VMValue {
